@@ -15,6 +15,7 @@ from __future__ import annotations
 import ast
 
 from . import terms as tm
+from .known import KNOWN_FUNCS, KNOWN_GLOBALS
 from .model import AnalysisError
 
 MUTATOR_METHODS = {
@@ -122,6 +123,7 @@ class Summary(object):
         self.def_envs = {}  # nested func name -> env at def time
         self.loops = {}  # loop id -> (node, iter term)
         self.n_stmts = 0
+        self.inlined = []  # quals of new helpers evaluated in place
 
     def by_kind(self, kind):
         return [s for s in self.sites if s.kind == kind]
@@ -211,6 +213,7 @@ class Evaluator(object):
         self.closure = closure or {}
         self.pc = ()
         self.loopstack = []
+        self.inline_frames = []
         self.nloops = 0
         self.ncomps = 0
         if func is not None:
@@ -290,6 +293,12 @@ class Evaluator(object):
             return env
         if isinstance(st, ast.Return):
             t = self.ev(st.value, env) if st.value is not None else tm.none()
+            if self.inline_frames:
+                fr = self.inline_frames[-1]
+                if self.loopstack and len(self.loopstack) > fr.loop_depth:
+                    fr.failed = True  # a return from inside a loop of the helper: not modelled
+                fr.returns.append((t, self.pc))
+                return None
             s = self.site("return", st, term=t, value_node=st.value)
             self.summary.returns.append(s)
             return None
@@ -716,7 +725,12 @@ class Evaluator(object):
         if name in self.module.funcs:
             return tm.func("%s.%s" % (self.module.name, name))
         if name in self.module.const_nodes:
-            return tm.glob("%s.%s" % (self.module.name, name))
+            q = "%s.%s" % (self.module.name, name)
+            if q not in KNOWN_GLOBALS:
+                v = _literal_of_node(self.module.const_nodes[name])
+                if v is not _NOLIT:
+                    return tm.const(v)
+            return tm.glob(q)
         if name in self.module.classes:
             return tm.mk("class", "%s.%s" % (self.module.name, name))
         r = self.P.resolve_import(self.module, name)
@@ -777,7 +791,12 @@ class Evaluator(object):
                 if name in m.funcs:
                     return tm.func("%s.%s" % (q, name))
                 if name in m.const_nodes:
-                    return tm.glob("%s.%s" % (q, name))
+                    qq = "%s.%s" % (q, name)
+                    if qq not in KNOWN_GLOBALS:
+                        v = _literal_of_node(m.const_nodes[name])
+                        if v is not _NOLIT:
+                            return tm.const(v)
+                    return tm.glob(qq)
                 if name in m.classes:
                     return tm.mk("class", "%s.%s" % (q, name))
                 r = self.P.resolve_import(m, name)
@@ -952,6 +971,7 @@ class Evaluator(object):
             via_filter = True
             fn = args[0]
             args = args[1:]
+        args, kw = self.canonical_args(fn, args, kw)
         if base is not None:
             mname = node.func.attr
             t = tm.method_call(base, mname, args, kw)
@@ -960,6 +980,9 @@ class Evaluator(object):
             if mname in MUTATOR_METHODS and not _is_module_term(base):
                 self.site("mutate", node, how="method:" + mname, old=base, root=_root_name(node.func.value), key=tm.none(), val=tm.tup(args), target=node.func.value)
             return t
+        inl = self.try_inline(fn, args, kw, node)
+        if inl is not None:
+            return inl
         t = self.apply(fn, args, kw)
         callee = tm.callee_name(fn)
         self.site("call", node, callee=callee, fn=fn, base=None, args=args, kw=kw, term=t, via_filter=via_filter, method=None)
@@ -982,12 +1005,143 @@ class Evaluator(object):
             self.site("mutate", node, how="out:" + str(callee), old=outt, root=None, key=tm.none(), val=t, target=None)
         return t
 
+    def canonical_args(self, fn, args, kw):
+        """f(a, b, w) and f(a, b, window=w) are the same call: keyword arguments of a repo callee are moved to their
+        positional slots as long as the slots are contiguous (no star arguments, no gap)."""
+        if fn is None or fn.op not in ("func", "localfunc") or not kw:
+            return args, kw
+        q = fn.a[0]
+        if not self.P.has_func(q) or any(a.op == "star" for a in args):
+            return args, kw
+        g = self.P.func(q)
+        params = list(g.params)
+        kwd = dict((k, v) for k, v in kw if k != "**")
+        if len(kwd) != len([k for k, _ in kw if k != "**"]):
+            return args, kw
+        args = list(args)
+        while len(args) < len(params) and params[len(args)] in kwd:
+            args.append(kwd.pop(params[len(args)]))
+        rest = tuple((k, v) for k, v in kw if k == "**" or k in kwd)
+        return tuple(args), rest
+
+    def try_inline(self, fn, args, kw, node):
+        """A call of a repo function that is not part of the reference inventory (a helper introduced after the
+        rules were written) is evaluated in place: its statements are walked in the caller's context, so the rules see
+        the same sites, terms and path conditions as if the code had never been extracted.  Returns the result term,
+        or None when the callee is known / cannot be inlined faithfully (then it stays an opaque call)."""
+        if fn is None or fn.op != "func":
+            return None
+        q = fn.a[0]
+        if q in KNOWN_FUNCS or not self.P.has_func(q):
+            return None
+        if len(self.inline_frames) >= 3 or any(getattr(fr, "qual", None) == q for fr in self.inline_frames):
+            return None
+        g = self.P.func(q)
+        if g.vararg or g.kwarg or g.nested or any(a.op == "star" for a in args) or any(k == "**" for k, _ in kw):
+            return None
+        for n in ast.walk(g.node):
+            if isinstance(n, (ast.Yield, ast.YieldFrom, ast.Try, ast.Global, ast.Nonlocal, ast.Lambda)):
+                return None
+        names = list(g.params) + list(getattr(g, "kwonly", []))
+        env = {}
+        for i, a in enumerate(args):
+            if i >= len(g.params):
+                return None
+            env[g.params[i]] = a
+        for k, v in kw:
+            if k not in names or k in env:
+                return None
+            env[k] = v
+        for pn in names:
+            if pn not in env:
+                if pn not in g.defaults:
+                    return None
+                okd, dv = g.default_value(pn)
+                if not okd:
+                    return None
+                env[pn] = tm.const(dv)
+        saved_module, saved_closure = self.module, self.closure
+        saved_pc = self.pc
+        fr = _InlineFrame(len(self.pc))
+        fr.qual = q
+        fr.loop_depth = len(self.loopstack)
+        self.inline_frames.append(fr)
+        self.module = g.module
+        self.closure = {}
+        n_sites = len(self.summary.sites)
+        try:
+            out = self.run_keep_pc(g.node.body, env)
+            end_pc = self.pc
+        finally:
+            self.inline_frames.pop()
+            self.module, self.closure = saved_module, saved_closure
+        rets = list(fr.returns)
+        if out is not None:
+            rets.append((tm.none(), end_pc))
+        if fr.failed or not rets:
+            # give up: forget what the walk recorded and treat the call as opaque
+            del self.summary.sites[n_sites:]
+            self.pc = saved_pc
+            return None
+
+        def rel_cond(pc):
+            cs = []
+            for it in pc[fr.base_len:]:
+                if it[0] == "if" and it[3] is None:
+                    cs.append(it[1] if it[2] else tm.unop("not", it[1]))
+                elif it[0] == "if" and it[3] in ("return", "mixed"):
+                    continue
+                elif it[0] == "if":
+                    continue
+                elif it[0] in ("loop", "try", "except"):
+                    return None
+            return cs
+
+        result = rets[-1][0]
+        for t_, pc_ in reversed(rets[:-1]):
+            cs = rel_cond(pc_)
+            if cs is None:
+                del self.summary.sites[n_sites:]
+                self.pc = saved_pc
+                return None
+            if not cs:
+                result = t_
+                continue
+            c = cs[0] if len(cs) == 1 else tm.boolop("and", cs)
+            result = tm.ite(c, t_, result)
+        # what the caller knows afterwards: the helper did not raise
+        keep = tuple(it for it in rets[-1][1][fr.base_len:] if it[0] == "if" and it[3] == "raise")
+        self.pc = saved_pc + keep
+        self.summary.inlined.append(q)
+        return result
+
     def apply(self, fn, args, kw):
         if fn.op == "ite":
             return tm.ite(fn.a[0], self.apply(fn.a[1], args, kw), self.apply(fn.a[2], args, kw))
         if fn.op in ("undef", "unk"):
             return tm.unk("call-of-" + fn.op)
         return tm.call(fn, args, kw)
+
+
+_NOLIT = object()
+
+
+def _literal_of_node(node):
+    """value of a module-level constant that is a plain scalar literal (number, string, bool, None), else _NOLIT"""
+    try:
+        v = ast.literal_eval(node)
+    except Exception:
+        return _NOLIT
+    if v is None or isinstance(v, (int, float, str, bool)):
+        return v
+    return _NOLIT
+
+
+class _InlineFrame(object):
+    def __init__(self, base_len):
+        self.base_len = base_len
+        self.returns = []  # (term, pc)
+        self.failed = False
 
 
 def _handler_types(st):
@@ -1026,15 +1180,36 @@ def _maybe_undef(t, depth=0):
 # ---------------------------------------------------------- path-condition help
 
 
+def _strip_not(c, pol):
+    """`not X` holding is X failing: conditions are reported without leading negations"""
+    while c.op == "un" and c.a[0] == "not":
+        c = c.a[1]
+        pol = not pol
+    return c, pol
+
+
+_COMPLEMENT = {"notin": "in", "isnot": "is", "!=": "==", "in": "notin", "is": "isnot", "==": "!="}
+
+
+def holds(c, pol, op):
+    """Does the path fact (c, pol) state the comparison `a <op> b` for an equality-like operator
+    (in / notin / is / isnot / == / !=), whichever of the two complementary spellings the code uses?"""
+    if c.op != "cmp":
+        return False
+    if c.a[0] == op and pol:
+        return True
+    return _COMPLEMENT.get(c.a[0]) == op and not pol
+
+
 def pc_conds(pc):
     """[(cond_term, polarity)] of the 'if' items of a path condition."""
-    return [(c[1], c[2]) for c in pc if c[0] == "if"]
+    return [_strip_not(c[1], c[2]) for c in pc if c[0] == "if"]
 
 
 def pc_conds_full(pc):
     """[(cond_term, polarity, origin)]; origin 'raise'/'return'/'mixed' when the condition
     holds because the opposite branch left the function, None for an enclosing branch."""
-    return [(c[1], c[2], c[3]) for c in pc if c[0] == "if"]
+    return [_strip_not(c[1], c[2]) + (c[3],) for c in pc if c[0] == "if"]
 
 
 def pc_either(pc):
